@@ -4,7 +4,7 @@ package main
 // first.  One step per line:
 //
 //   nonce A n | data A keyhex valhex | del A keyhex | code A len | codehex A hex | bal A n |
-//   addbal A n | suicide A | iroot | snap | revert | ft A name n
+//   addbal A n | suicide A | iroot | snap | revert | ft A name n | peek A
 //   commit [fail=k] [die] [retry]        -- state.Commit(true) + trieDB.Commit(root)
 //   big                                   -- use large values from here on
 //
@@ -141,6 +141,15 @@ func (r *runner) runCorpus(dir string) {
 				a := corpusAddr(f[1])
 				adb.Suicide(a)
 				touched[a] = true
+			case "peek": // peek A : read-only accessors only, the account is not touched and its slots are not read
+				open()
+				a := corpusAddr(f[1])
+				adb.Exist(a)
+				adb.GetNonce(a)
+				adb.GetCodeSize(a)
+				adb.GetCodeHash(a)
+				adb.HasSuicided(a)
+				adb.Empty(a)
 			case "snap":
 				open()
 				snaps = append(snaps, adb.Snapshot())
